@@ -39,8 +39,17 @@ def spec_check(kind, rows, lf, ops, obs, impl):
                     return out
                 continue
             ok = truthy(res)
+            if res[0] == 999:
+                # the call RAISED (e.g. a grouping rule shorter than the role definition is stored and forwarded before
+                # link building refuses it): the property speaks of calls that report success or failure; what it
+                # still demands is its headline - the store mirrors memory
+                for pt in (0, 1, 2):
+                    if sorted(db[pt]) != sorted(mem[pt]):
+                        out.append((i, "after a call that raised the adapter's rows differ from the in-memory policy", tag))
+                        return out
+                continue
             if not ok and acalls:
-                out.append((i, "a call that reported failure / no change (or raised) told the adapter to change something", tag))
+                out.append((i, "a call that reported failure / no change told the adapter to change something", tag))
                 return out
             if ok:
                 for pt in (0, 1, 2):
@@ -118,9 +127,24 @@ def known_probe(chk):
     mgmt.run_cases(chk, kind, [([], True, ops)], spec_check, label="known-finding-probe")
 
 
+def short_rule_probe(chk):
+    """a grouping rule SHORTER than the role definition: the call raises while building the link, after the rule was
+    stored and forwarded; store and memory must still mirror each other right after that call (no reload afterwards:
+    the unusable rule makes every later load_policy fail, which is why the random histories contain no such rule)"""
+    A = mgmt.ATOMS.a
+    cases = []
+    for kn, short in (("rbac", [A("carol")]), ("dom", [A("carol"), A("admin")]), ("rbac_res", [A("carol")])):
+        kind = mgmt.KINDS[kn]
+        pre = [(1, 0, [A("alice")] + ([A("d1")] if kind.dom else []) + [A("data1"), A("read")]),
+               (1, 1, [A("alice"), A("admin")] + ([A("d1")] if kind.dom else []))]
+        for ops in ([(1, 1, short)], pre + [(1, 1, short)], pre + [(16, A("bob"), A("admin"))] + [(1, 1, short)]):
+            mgmt.run_cases(chk, kind, [([], True, ops)], spec_check, label=f"short-grouping-rule-{kn}", compare_model=False)
+
+
 def run(chk, n):
     rng = chk.rng
     known_probe(chk)
+    short_rule_probe(chk)
     for kn in ("acl", "rbac", "dom", "rbac_res", "prio"):
         cases = make_cases(rng, kn, n)
         by_kind = {}
